@@ -420,12 +420,15 @@ impl AnnotationStore {
             format!("{}.to_csv_files: filename={:?}, basename={:?}", Self::typeinfo(), filename, basename)
         });
         self.to_csv_file(filename, self.config(), CsvTable::StoreManifest)?;
+        //the annotations file lives relative to the store's directory, exactly like the manifest records it and the reader looks for it
+        let new_config = self.new_config();
+        let annotations_filename = self
+            .annotations_filename()
+            .map(|x| x.to_str().expect("valid utf-8").to_owned())
+            .unwrap_or_else(|| format!("{}.annotation.csv", basename));
         self.to_csv_file(
-            self.annotations_filename()
-                .map(|x| x.to_str().expect("valid utf-8").to_owned())
-                .unwrap_or_else(|| format!("{}.annotation.csv", basename))
-                .as_str(),
-            self.config(),
+            filename_without_workdir(annotations_filename.as_str(), &new_config),
+            &new_config,
             CsvTable::Annotation,
         )?;
         for dataset in self.datasets().map(|x| x.as_ref()) {
